@@ -42,7 +42,21 @@ func drawC02(rt *rapid.T, p *Plan, tier string) *Plan {
 		maxB = 40
 	}
 	p.Blocks = drawBlocks(rt, 2, maxB, p.Proto.P2PSig)
+	long := rapid.IntRange(0, 3).Draw(rt, "longchain") == 0
+	if long {
+		// a chain that crosses header hash pages (16 headers under the verif build tag) with a short traceable
+		// window, so that block, header and header-page removal by the GC land among the crash points
+		for n := rapid.IntRange(18, 30).Draw(rt, "nempty"); n > 0; n-- {
+			p.Blocks = append(p.Blocks, BlockPlan{})
+		}
+		p.Proto.MTB = 8
+	}
 	l := drawLocal(rt, len(p.Blocks))
+	if long {
+		l.RemoveOld = true
+		l.GCPeriod = uint32(rapid.IntRange(1, 3).Draw(rt, "gcplong"))
+		l.FlushGC = true
+	}
 	l.RestartPlan = nil
 	l.FlushMode = 1 + rapid.IntRange(0, 1).Draw(rt, "vflush") // (the concurrent flush of C02 is drawn separately)
 	p.Locals = []Local{l}
